@@ -12,11 +12,13 @@ LETTERS = "abcdefgh"
 
 
 def text_of(ids):
-    return "".join(LETTERS[i - 1] for i in ids)
+    """ids 1..8 = the letters a..h; every id above 99 is the Unicode code point of the character itself (scale cases)"""
+    return "".join(LETTERS[i - 1] if i <= len(LETTERS) else chr(i) for i in ids)
 
 
 def ids_of(text):
-    return [LETTERS.index(c) + 1 if c in LETTERS else 99 for c in text]
+    """inverse of text_of; 99 = a character no case ever contains (code point below 100 other than a..h)"""
+    return [LETTERS.index(c) + 1 if c in LETTERS else (ord(c) if ord(c) > 99 else 99) for c in text]
 
 
 def strings(alphabet, maxlen):
@@ -38,18 +40,33 @@ def _rows(arr):
     return [[int(r[0]), int(r[1])] for r in arr]
 
 
+def _failing_call():
+    """a call outside the scope sentence (no part at all) that may raise: whatever it does, it must leave nothing behind
+    that changes the following in-scope calls of the same process"""
+    try:
+        L.merge_transcriptions_and_logits([], [])
+    except Exception:
+        pass
+
+
 def run_case(case):
-    """case = {"parts": [[ids]], "extra": [int]}"""
+    """case = {"parts": [[ids]], "extra": [int]} and optionally "kind" ("parts" | "scale" | "big"), "line" (ids of the text
+    the parts were cut from) and "starts" (1-based start of every part in it).  Scale cases are preceded by a call that may
+    fail and hand the SAME logits arrays to every call (a caller may keep its engine outputs), the others get copies."""
     parts = [text_of(p) for p in case["parts"]]
     logits = [logits_of(i + 1, len(p) + e) for i, (p, e) in enumerate(zip(parts, case["extra"]))]
-    rec = {"parts": case["parts"], "extra": case["extra"], "steps": []}
+    kind = case.get("kind", "parts")
+    rec = {"kind": kind, "line": list(case.get("line", [])), "starts": list(case.get("starts", [])),
+           "parts": case["parts"], "extra": case["extra"], "steps": []}
+    if kind != "parts":
+        _failing_call()
     prev_text = None
     for j in range(1, len(parts) + 1):
         step = {"o": 0, "text": [], "rows": [], "outcome": "ok"}
         try:
             if j > 1:
                 step["o"] = int(L.find_best_overlap(prev_text, parts[j - 1]))
-            text, lg = L.merge_transcriptions_and_logits(list(parts[:j]), [x.copy() for x in logits[:j]])
+            text, lg = L.merge_transcriptions_and_logits(list(parts[:j]), [x if kind != "parts" else x.copy() for x in logits[:j]])
             step["text"] = ids_of(text)
             step["rows"] = _rows(lg)
             prev_text = text
